@@ -708,6 +708,34 @@ pub fn run(tier: Tier) -> i32 {
         layer = next;
     }
     par_map(&texts, |t| judge_move_text(&rep, t, &mstats));
+    // complete sweep: every Unicode scalar value substituted at every character position of two
+    // move tokens (a finite space: 1 112 064 scalars x 9 positions), and inside a go / position line
+    // for the scalars whose low byte looks like a file or rank character
+    let t1 = Instant::now();
+    let scalars: Vec<u32> = (0..=0x10FFFFu32).filter(|c| char::from_u32(*c).is_some()).collect();
+    let uni_n = AtomicU64::new(0);
+    par_map_chunk(&scalars, 4096, |&c| {
+        let ch = char::from_u32(c).unwrap();
+        for base in ["e2e4", "a7b8q"] {
+            let chars: Vec<char> = base.chars().collect();
+            for i in 0..chars.len() {
+                if chars[i] == ch {
+                    continue;
+                }
+                let mut t = chars.clone();
+                t[i] = ch;
+                let s: String = t.into_iter().collect();
+                uni_n.fetch_add(1, Ordering::Relaxed);
+                judge_move_text(&rep, &s, &mstats);
+                let low = (c & 0xff) as u8;
+                if c > 0x7f && ((b'a'..=b'h').contains(&low) || (b'1'..=b'8').contains(&low)) && i < 4 {
+                    judge_line(&rep, &format!("position startpos moves {}", s), &stats);
+                    judge_line(&rep, &format!("go searchmoves {} depth 2", s), &stats);
+                }
+            }
+        }
+    });
+    let uni_secs = t1.elapsed().as_secs_f64();
 
     let mut cov = Coverage::new();
     cov.states = (lines.len() + texts.len()) as u64;
@@ -724,6 +752,7 @@ pub fn run(tier: Tier) -> i32 {
     cov.set("move_texts_must_reject", json!(mstats[1].load(Ordering::Relaxed)));
     cov.set("move_texts_unspecified", json!(mstats[2].load(Ordering::Relaxed)));
     cov.set("secs_lines", json!(line_secs));
+    cov.set("unicode_sweep_move_texts", json!({"scalars": scalars.len(), "texts": uni_n.load(Ordering::Relaxed), "secs": uni_secs}));
     cov.samples = vec![json!({"line": lines[40]}), json!({"line": lines[lines.len() / 2]}), json!({"line": lines[lines.len() - 1]}), json!({"move_text": texts[12345]})];
     cov.assumptions = vec!["reference line parser written from the UCI specification; trailing tokens, negative times, tabs and over-long move tokens are 'unspecified' (DESIGN §6.5)".into()];
     if stats[0].load(Ordering::Relaxed) == 0 || stats[1].load(Ordering::Relaxed) == 0 {
